@@ -8,20 +8,20 @@ SHARDS = 16
 RULE = ("D cases: one burst of 1-20 calls over a fresh in-process p2p pair (methods taking &self / &mut self on interfaces with "
         "spawning on and off, Properties.Get / GetAll / Set with &mut and &self setters, Introspect) whose handlers — method handlers, "
         "property getters, property setters — yield, sleep, emit signals and call object_server().at / remove (another path, own path) "
-        "and .interface(); a watchdog of 5 s (handlers need milliseconds), a hang is re-run once in a fresh pair before it is believed. "
-        "Mostly bursts inside the class where freedom from deadlock is proved (there a hang is a VIOLATION), a few in each known class "
-        "(deterministic deadlocks: a property handler that registers / removes; a method handler that registers while Properties.Get "
-        "or Introspect on the same interface is in flight) and bursts of the known class that only deadlock under rare schedules. "
-        "L cases: conn.object_server() created on demand, at() returns, the peer sends 1-5 calls — 30 ms later (must be answered), at "
-        "once, and with the socket reader made runnable before the dispatch task was spawned (the deterministic drop). The model must "
-        "explain every log: a complete run for OK, a run into a deadlock / the drop of exactly the unanswered calls for HANG. "
-        "non-trivial = a handler used the object server, or an L case")
-TRUSTED = ["harness/hdisp: event log, watchdog (5 s, re-checked once), leaked connections on HANG",
+        "and .interface(); a watchdog of 8 s (handlers need milliseconds), a hang is re-run once in a fresh pair before it is believed. "
+        "Mostly bursts inside the class where freedom from deadlock is proved (there a hang is a VIOLATION): since /repo d9501501 that "
+        "includes property getters / setters that register or remove objects and method handlers racing with property traffic. A few "
+        "bursts in the remaining known class (a handler that registers while Introspect on the same node is in flight: deterministic "
+        "via a 30 ms sleep, or only under rare schedules). "
+        "L cases: conn.object_server() created on demand, at() returns, the peer sends 1-5 calls — after a Ping was answered (must be "
+        "answered), at once, and with the socket reader made runnable before the dispatch task was spawned (the deterministic drop). "
+        "The model must explain every log: a complete run for OK, a run into a deadlock / the drop of exactly the unanswered calls for "
+        "HANG. non-trivial = a handler used the object server, or an L case")
+TRUSTED = ["harness/hdisp: event log, watchdog (8 s, re-checked once), leaked connections on HANG",
            "the classification of a case (Known_C30 = the burst's code paths do not respect one lock order) is the extracted Coq predicate"]
 ASSUMPTIONS = ["async_lock::RwLock: many readers xor one writer; a writer that owns the writer mutex blocks new readers (read from "
                "async-lock 3.4.1 raw.rs)",
-               "executor: every runnable task is eventually polled; an idle internal executor polls a freshly spawned task within 30 ms "
-               "(L variants a / d)",
+               "executor: every runnable task is eventually polled (L variants a / d wait for an answered Ping, not for a time)",
                "at() under an ObjectManager ancestor (which runs the new interface's getters under the root write lock) is not modelled",
                "sending a reply or a signal completes by itself (transport failures: C38/C39)"]
 
@@ -45,24 +45,43 @@ def safe_methods(rng):
     return "D %s -,-,-,- %s" % (rng.choice(["i", "i", "1", "2", "3"]), " ".join(calls))
 
 
+def handlers(rng):
+    # method AND property handlers that register / remove / emit, on any interface; no Introspect (C30_nodeadlock_handlers)
+    getters = [script(rng, AWAITS + MUTS + MUTS, 0, 3) for _ in range(4)]
+    n = rng.choice([1, 2, 3, 5, 8, 12])
+    calls = []
+    for _ in range(n):
+        k = rng.randint(0, 3)
+        kind = rng.choice("gGstmfgGst")
+        if kind in "gG":
+            calls.append("%s%d" % (kind, k))
+        else:
+            calls.append("%s%d:%s" % (kind, k, script(rng, AWAITS + MUTS + MUTS, 1, 4)))
+    return "D %s %s %s" % (rng.choice(["i", "i", "1", "2", "3"]), ",".join(getters), " ".join(calls))
+
+
 def safe_mixed(rng):
-    # property / introspection traffic on interfaces P, mutating method handlers on the others
+    # Introspect traffic on interfaces P (their handlers only await), registering handlers of every kind on the others
     pset = rng.choice([[0, 2], [1, 3], [0], [3], [0, 1]])
     others = [k for k in range(4) if k not in pset]
-    getters = [script(rng, AWAITS, 0, 2) if k in pset else "-" for k in range(4)]
+    getters = [script(rng, AWAITS, 0, 2) if k in pset else script(rng, AWAITS + MUTS, 0, 2) for k in range(4)]
     n = rng.choice([2, 3, 5, 8, 12])
     calls = []
     for _ in range(n):
         if rng.random() < 0.5:
             k = rng.choice(pset)
-            kind = rng.choice("gGstx")
+            kind = rng.choice("xxgGstmf")
             if kind in "gGx":
                 calls.append("%s%d" % (kind, k))
             else:
                 calls.append("%s%d:%s" % (kind, k, script(rng, AWAITS, 0, 3)))
         else:
             k = rng.choice(others)
-            calls.append("%s%d:%s" % (rng.choice("mf"), k, script(rng, AWAITS + MUTS + MUTS, 1, 4)))
+            kind = rng.choice("mfstgG")
+            if kind in "gG":
+                calls.append("%s%d" % (kind, k))
+            else:
+                calls.append("%s%d:%s" % (kind, k, script(rng, AWAITS + MUTS + MUTS, 1, 4)))
     return "D %s %s %s" % (rng.choice(["i", "i", "2", "3"]), ",".join(getters), " ".join(calls))
 
 
@@ -72,30 +91,20 @@ def safe_lookup(rng):
     calls = []
     for _ in range(n):
         if rng.random() < 0.6:
-            calls.append("%s%d:%s" % (rng.choice("mf"), rng.choice([0, 1]), script(rng, AWAITS + MUTS + ["i2", "i3", "i2"], 1, 4)))
+            calls.append("%s%d:%s" % (rng.choice("mfst"), rng.choice([0, 1]), script(rng, AWAITS + MUTS + ["i2", "i3", "i2"], 1, 4)))
         else:
             calls.append("%s%d:%s" % (rng.choice("mf"), rng.choice([2, 3]), script(rng, AWAITS, 0, 2)))
     return "D %s -,-,-,- %s" % (rng.choice(["i", "2"]), " ".join(calls))
 
 
 def known_deterministic(rng):
+    # a handler holds its interface lock, sleeps, registers; Introspect on the same node in between
     k = rng.randint(0, 3)
     m = rng.choice(MUTS)
-    pick = rng.randint(0, 5)
-    g = ["-", "-", "-", "-"]
-    if pick == 0:
-        return "D i -,-,-,- s%d:%s" % (k, m)
-    if pick == 1:
-        return "D i -,-,-,- t%d:y1.%s" % (k, m)
-    if pick == 2:
-        g[k] = m
-        return "D i %s g%d" % (",".join(g), k)
-    if pick == 3:
-        g[k] = "e." + m
-        return "D i %s G%d" % (",".join(g), k)
-    if pick == 4:
-        return "D i -,-,-,- m%d:z30.%s g%d" % (k, m, k)
-    return "D i -,-,-,- m%d:z30.%s x%d" % (k, m, k)
+    kind = rng.choice("mmsf")
+    if kind == "f":
+        return "D i -,-,-,- f%d:z30.%s m%d:- x%d" % (k, m, k, k)
+    return "D i -,-,-,- %s%d:z30.%s x%d" % (kind, k, m, k)
 
 
 def known_rare(rng):
@@ -104,36 +113,38 @@ def known_rare(rng):
     m = rng.choice(MUTS)
     pick = rng.randint(0, 2)
     if pick == 0:
-        return "D i -,-,-,- f%d:%s g%d" % (k, m, k)
+        return "D i -,-,-,- f%d:%s x%d" % (k, m, k)
     if pick == 1:
-        return "D i -,-,-,- g%d f%d:y1.%s f%d:-" % (k, k, m, k)
-    return "D i -,-,-,- x%d f%d:%s" % (k, k, m)
+        return "D i -,-,-,- x%d t%d:y1.%s f%d:-" % (k, k, m, k)
+    return "D i -,-,-,- x%d m%d:%s" % (k, k, m)
 
 
 def gen_case(rng, tier, allow_hang):
     """returns (case, expected_to_hang)"""
     r = rng.random()
-    if r < 0.36:
+    if r < 0.20:
         return safe_methods(rng), False
-    if r < 0.66:
+    if r < 0.50:
+        return handlers(rng), False
+    if r < 0.68:
         return safe_mixed(rng), False
-    if r < 0.74:
+    if r < 0.75:
         return safe_lookup(rng), False
-    if r < 0.84:
+    if r < 0.85:
         return "L %s %d" % (rng.choice("aad"), rng.randint(1, 5)), False
-    if r < 0.87:
+    if r < 0.88:
         return "L b %d" % rng.randint(1, 4), False
     if r < 0.95:
         return known_rare(rng), False
     if allow_hang:
-        return (known_deterministic(rng) if rng.random() < 0.8 else "L c %d" % rng.randint(1, 3)), True
-    return safe_methods(rng), False
+        return (known_deterministic(rng) if rng.random() < 0.75 else "L c %d" % rng.randint(1, 3)), True
+    return handlers(rng), False
 
 
 def gen(rng, tier):
     total = 230 if tier == "quick" else 12000
     hangs = 0
-    cap = 6 if tier == "quick" else 400
+    cap = 5 if tier == "quick" else 400
     for _ in range(total):
         c, h = gen_case(rng, tier, hangs < cap)
         if h:
@@ -168,17 +179,20 @@ def search(rng, bad_cases):
 ENABLED = True
 LEVEL = "proof"
 LEVEL_TEXT = ("Theorems in coq/theories/Properties/C30.v. First clause, on the dispatch model shared with C29 (dispatch task, "
-              "dispatch_call_to_iface, ObjectServer::at/remove/interface, Properties::get/set/get_all, Introspectable::introspect as lock "
-              "scripts over a write-preferring RwLock; handlers = arbitrary finite scripts; arbitrary scheduler): method handlers that "
-              "await / register / remove / emit never deadlock (C30_nodeadlock_methods), and more generally no burst whose code paths "
-              "respect one lock order does (C30_nodeadlock_partial, the class is decidable and evaluated on every case). The faithful "
-              "model REFUTES the full statement: kernel-checked deadlocking runs for a property setter / getter that registers or "
-              "removes an object, and for a METHOD handler that registers an object while Properties.Get or Introspect on the same "
-              "interface is in flight (C30_*_refuted) — all confirmed on the real code (known findings). Second clause, on a start-up "
-              "model: with on-demand creation a call sent after at() returned can be dropped (C30_lazy_start_refuted, confirmed); "
-              "with the builder path, or once the dispatch task has subscribed, nothing is dropped and every call is taken in order "
-              "(C30_lazy_start_partial, C30_subscribed_no_more_drops).")
-LEVEL_NOTE = ("PARTIAL: the property does not hold on this tree; the theorems cover the complement of explicit known classes. "
-              "Protocol-level: RwLock semantics and executor fairness are assumed contracts; at() below an ObjectManager is not modelled; "
-              "object_server().interface() from handlers is modelled but not demanded by the oracle (the property text does not name it). "
-              "Trusted: Coq kernel, the models, harness/hdisp with its 5 s watchdog.")
+              "dispatch_call_to_iface, ObjectServer::at/remove/interface, Properties::get/set/get_all as repaired by /repo d9501501 — root "
+              "guard dropped after the lookup —, Introspectable::introspect as lock scripts over a write-preferring RwLock; handlers = "
+              "arbitrary finite scripts; arbitrary scheduler): method AND property handlers that await / register / remove / emit never "
+              "deadlock in bursts of method calls and Properties.Get/GetAll/Set (C30_nodeadlock_handlers), and more generally no burst "
+              "whose code paths respect one lock order does (C30_nodeadlock_partial; the class is decidable, evaluated on every case, and "
+              "a burst outside it must contain Introspect traffic or interface() lookups: C30_known_needs_introspect_or_lookup). The "
+              "faithful model still REFUTES the statement for bursts with Introspect traffic: kernel-checked deadlocking runs of a method "
+              "handler / a property setter that registers an object while Introspect walks the same node (C30_*_vs_introspect_refuted), "
+              "confirmed on the real code (known finding). Second clause, on a start-up model: with on-demand creation a call sent after "
+              "at() returned can be dropped (C30_lazy_start_refuted, confirmed); with the builder path, or once the dispatch task has "
+              "subscribed, nothing is dropped and every call is taken in order (C30_lazy_start_partial, C30_subscribed_no_more_drops).")
+LEVEL_NOTE = ("PARTIAL: two known classes remain (handler_vs_introspect, lazy_start_race); the classes prop_handler_mutates and "
+              "method_vs_properties were repaired by /repo d9501501 and their witnesses are now ordinary cases that must pass. "
+              "Protocol-level: RwLock semantics and executor fairness are assumed contracts; at() below an ObjectManager and "
+              "ObjectManager.GetManagedObjects (same shape as Introspect) are not modelled; object_server().interface() from handlers is "
+              "modelled but not demanded by the oracle (the property text does not name it). "
+              "Trusted: Coq kernel, the models, harness/hdisp with its 8 s watchdog (re-checked once).")
